@@ -42,7 +42,7 @@ def norm(v):
     return v
 
 
-OPS = ['map', 'starmap', 'filter', 'scan', 'scan_reduce', 'cmap']
+OPS = ['map', 'starmap', 'filter', 'scan', 'scan_reduce', 'cmap', 'starmap_te']
 HANDLERS = ['ignore', 'map', 'router', 'none']
 TAILS = ['nothing', 'to_list', 'scan', 'count']
 
@@ -73,6 +73,11 @@ def failing_op(op):
                 raise boom(n)
             return v - 100
         return rs.ops.starmap(g)
+    if op == 'starmap_te':
+        # the user function itself raises a TypeError (a None in a numeric row): it is the mapper's error, on a proper tuple
+        def h(k, v, raises, n):
+            return (None if raises else v) - 100
+        return rs.ops.starmap(h)
     if op == 'filter':
         def p(i):
             if i[2]:
@@ -94,13 +99,29 @@ def failing_op(op):
 
 
 def tag_of(e):
-    return e.tag if isinstance(e, Boom) else 'builtin:' + type(e).__name__
+    return e.tag if isinstance(e, Boom) else 'builtin:%s:%s' % (type(e).__name__, e)
+
+
+def _message(f):
+    try:
+        f()
+    except TypeError as e:
+        return 'builtin:TypeError:%s' % e
+
+
+BUILTIN = {'cmap': lambda: _message(lambda: __import__('operator').neg(None)), 'starmap_te': lambda: _message(lambda: None - 100)}
 
 
 def exp_tag(op, it, shared):
-    if op == 'cmap':
-        return 'builtin:TypeError'
+    if op in BUILTIN:
+        return BUILTIN[op]()            # the very exception the user function raises, message included
     return 'shared' if shared else it[3]
+
+
+def exp_exc(op, it, shared):
+    if op in BUILTIN:
+        return TypeError(BUILTIN[op]().split(':', 2)[2])
+    return Boom(exp_tag(op, it, shared))
 
 
 def ref_op_outputs(op, items):
@@ -113,7 +134,7 @@ def ref_op_outputs(op, items):
             continue
         if op == 'map':
             outs.append([it[1] + 100])
-        elif op == 'starmap':
+        elif op in ('starmap', 'starmap_te'):
             outs.append([it[1] - 100])
         elif op == 'filter':
             outs.append([it] if it[1] % 2 == 0 else [])
@@ -272,7 +293,7 @@ def run(case):
         xs = []       # what the handler lets through for key k, per source item
         for it, o in zip(its, ref_op_outputs(op, its)):
             if o is None:
-                xs.append([mapper(TypeError() if op == 'cmap' else Boom(exp_tag(op, it, shared)))] if handler == 'map' and not outer else [])
+                xs.append([mapper(exp_exc(op, it, shared))] if handler == 'map' and not outer else [])
             else:
                 xs.append(o)
         return xs
@@ -309,7 +330,7 @@ def run(case):
             raise Violation('exception escaped subscribe', result=r.brief(), **ctx)
         if r.error is None:
             raise Violation('an unhandled mux error did not surface as on_error', result=r.brief(), **ctx)
-        if not isinstance(r.error, TypeError if op == 'cmap' else Boom) or tag_of(r.error) != exp_tag(op, failing[0], shared):
+        if not isinstance(r.error, TypeError if op in BUILTIN else Boom) or tag_of(r.error) != exp_tag(op, failing[0], shared):
             raise Violation('on_error carries %r, expected the exception of the first failing item (%r)' % (r.error, failing[0][3]), **ctx)
         if r.completed:
             raise Violation('stream both failed and completed', **ctx)
@@ -323,7 +344,7 @@ def run(case):
         raise Violation('main output differs from the output computed without the failing items', expected=exp_main, got=r.items, **ctx)
     if handler == 'router' and not outer:
         tags = [tag_of(e) if isinstance(e, Exception) else None for e in dead.items]
-        if any(not isinstance(e, TypeError if op == 'cmap' else Boom) for e in dead.items) or tags != [exp_tag(op, it, shared) for it in failing]:
+        if any(not isinstance(e, TypeError if op in BUILTIN else Boom) for e in dead.items) or tags != [exp_tag(op, it, shared) for it in failing]:
             raise Violation('dead-letter observable did not receive exactly the exceptions in source order',
                             expected=[it[3] for it in failing], got=[repr(e) for e in dead.items], **ctx)
         if dead.error is not None:
@@ -338,7 +359,7 @@ def run(case):
 @st.composite
 def case_gen(draw):
     driver = draw(st.sampled_from(['store', 'grouped', 'grouped', 'multiplex']))
-    op = draw(st.sampled_from(OPS if driver != 'multiplex' else ['map', 'starmap', 'filter', 'cmap']))
+    op = draw(st.sampled_from(OPS if driver != 'multiplex' else ['map', 'starmap', 'filter', 'cmap', 'starmap_te']))
     tail = draw(st.sampled_from(TAILS if driver != 'multiplex' else ['nothing']))
     n = draw(st.integers(draw(st.sampled_from([0, 1, 3, 6])), 12))
     items = [[draw(st.integers(0, 2)), draw(st.integers(-5, 5)), draw(st.integers(0, 2).map(lambda x: int(x == 0)))] for _ in range(n)]
